@@ -2,9 +2,11 @@ package main
 
 import (
 	"fmt"
+	"strings"
 
 	mqtt "github.com/mochi-mqtt/server/v2"
 
+	"verif/harness/eng"
 	"verif/harness/hist"
 	rc "verif/harness/refcodec"
 	"verif/harness/vk"
@@ -62,7 +64,7 @@ func weaveRestarts(r *vk.Rand, ops []hist.Op, ticksAfter bool) []hist.Op {
 
 func checkC20(c *vk.Ctx) {
 	c.Rule = "per backend (badger, pebble, bolt, redis via in-process miniredis): random histories over client ids {a, a:b, é, x_1}, filters {c, b:c, t/#, é/+, $share/g/s/1 (index comparison only), t/1, #} and topics {c, b:c, t/1, é/日, t/1:2} (MQTT 3.1.1/5, clean start 0/1, session expiry absent/300, subscriptions with all options, QoS 0-2 publishes, retained set/clear, withheld acknowledgements so that messages stay in flight, message expiry; a second series with MQTT 5 clients announcing Receive Maximum 1/2 so that some in-flight messages are held back by the broker) with 2-3 orderly restarts (Server.Close, new broker and new hook instance on the same store, store loaded as Serve does) woven in, the last one followed by reconnects and traffic. " +
-		"After every restart the restarted broker's sessions (existence and effective expiry setting), topic-index subscriptions with options, retained messages and in-flight records (payload, PUBLISH/PUBREL, packet id) are compared with the reference model; afterwards the history continues and every delivery, session-present flag, resend and retained replay is judged by the same model as in C03-C09/C14. nontrivial = histories with >=1 restart at which >=1 session, subscription, retained or in-flight record had to be restored"
+		"After every restart the restarted broker's sessions (existence and effective expiry setting), topic-index subscriptions with options, retained messages and in-flight records (payload, PUBLISH/PUBREL, packet id) are compared with the reference model; every retained message and in-flight PUBLISH/PUBREL that the broker held in memory before the shutdown and holds again afterwards is compared field by field (payload, QoS, origin, creation and expiry time, message expiry interval, content type, response topic, correlation data, user properties, payload format, subscription identifiers); a directed probe per backend replaces retained messages by messages with the same payload but other properties, QoS or expiry (and clears and re-sets one) before the restart; afterwards the history continues and every delivery, session-present flag, resend and retained replay is judged by the same model as in C03-C09/C14. nontrivial = histories with >=1 restart at which >=1 session, subscription, retained or in-flight record had to be restored"
 	c.Assumptions = []string{"the clock of restored sessions restarts at the restart (the statement requires the expiry settings, not the remaining time)", "delayed wills are not used in this profile (they live in memory only)",
 		"stores are closed cleanly (engine durability is not under test)"}
 	per := c.N(12, 500)
@@ -118,9 +120,97 @@ func checkC20(c *vk.Ctx) {
 			{Kind: "restart"},
 		})
 	}
+	for _, backend := range backendNames {
+		c20ReplaceProbe(c, backend)
+	}
 	c.MinEvents["restarts"] = int64(per) * 4
 	c.MinEvents["sessions_restored_checked"] = int64(per) * 4
 	c.MinEvents["inflight_restored_checked"] = int64(per)
 	c.MinEvents["retained_restored_checked"] = int64(per)
 	_ = fmt.Sprint
+}
+
+// c20ReplaceProbe: messages that replace one another with the same payload. The history engine gives every publish a
+// payload of its own (that is how deliveries are attributed), so a retained message republished unchanged but for its
+// properties, QoS or expiry never occurs there. Here one client does exactly that, the broker is restarted on the same
+// store and the retained messages held before and after are compared field by field.
+func c20ReplaceProbe(c *vk.Ctx, backend string) {
+	site, err := newStoreSite(backend)
+	if err != nil {
+		c.Inconclusive("C20 replace probe: " + err.Error())
+		return
+	}
+	defer site.destroy()
+	open := func() *eng.Broker {
+		h, cfg := site.open()
+		return eng.NewBroker(eng.Options{ExtraHooks: []eng.HookSpec{{Hook: h, Config: cfg}}})
+	}
+	b := open()
+	d, rx := dConnect(b, 5, "rp", true, nil, nil)
+	if ca := hasType(rx, rc.CONNACK); ca == nil || ca.Reason != 0 {
+		c.Inconclusive("C20 replace probe: CONNECT refused")
+		b.Shutdown()
+		return
+	}
+	type step struct {
+		topic   string
+		qos     byte
+		payload string
+		props   rc.Props
+	}
+	up := func(k, v string) rc.Prop { return rc.Prop{ID: rc.PUserProperty, Str: k, Val: v} }
+	steps := []step{
+		{"r/same", 1, "same", rc.Props{{ID: rc.PContentType, Str: "first"}, {ID: rc.PMessageExpiry, Num: 1000}, up("k", "1")}},
+		{"r/same", 1, "same", rc.Props{{ID: rc.PContentType, Str: "second"}, up("k", "2")}},
+		{"r/qos", 0, "same", nil},
+		{"r/qos", 1, "same", nil},
+		{"r/exp", 1, "x", rc.Props{{ID: rc.PMessageExpiry, Num: 50}}},
+		{"r/exp", 1, "x", rc.Props{{ID: rc.PMessageExpiry, Num: 5000}}},
+		{"r/other", 1, "a", rc.Props{{ID: rc.PResponseTopic, Str: "re/1"}}},
+		{"r/other", 1, "b", rc.Props{{ID: rc.PResponseTopic, Str: "re/2"}, {ID: rc.PCorrelationData, Bin: []byte{1, 2}}}},
+		{"r/cleared", 1, "x", nil},
+		{"r/cleared", 1, "", nil},
+		{"r/cleared", 1, "x", rc.Props{{ID: rc.PContentType, Str: "again"}}},
+	}
+	for i, st := range steps {
+		p := publishPkt(st.topic, st.qos, uint16(100+i), st.payload, true)
+		p.Props = st.props
+		d.send(p)
+	}
+	snap := func(b *eng.Broker) map[string]string {
+		out := map[string]string{}
+		for topic, pk := range b.S.Topics.Retained.GetAll() {
+			if strings.HasPrefix(topic, "$SYS") {
+				continue
+			}
+			pr := pk.Properties
+			out[topic] = fmt.Sprintf("payload=%q qos=%d origin=%s created=%d expiry=%d interval=%d content_type=%q response_topic=%q correlation=%x user=%v format=%v/%v",
+				pk.Payload, pk.FixedHeader.Qos, pk.Origin, pk.Created, pk.Expiry, pr.MessageExpiryInterval, pr.ContentType, pr.ResponseTopic, pr.CorrelationData, pr.User, pr.PayloadFormat, pr.PayloadFormatFlag)
+		}
+		return out
+	}
+	pre := snap(b)
+	_ = b.S.Close()
+	b.Shutdown()
+	b2 := open()
+	defer b2.Shutdown()
+	if err := b2.S.VerifReadStore(); err != nil {
+		c.Violate("C20/read-store-error", map[string]string{"backend": backend}, "replace probe: "+err.Error(), nil)
+		return
+	}
+	post := snap(b2)
+	for topic, a := range pre {
+		c.Count("replace_probe_retained_compared", 1)
+		if post[topic] != a {
+			c.Violate("C20/restored-message-differs", map[string]string{"kind": "retained", "probe": "replaced-with-same-payload"},
+				fmt.Sprintf("%s: retained message on %q after the restart differs from the one held before the shutdown\n  before: %s\n  after:  %s", backend, topic, a, post[topic]),
+				map[string]any{"backend": backend, "topic": topic, "before": a, "after": post[topic]})
+		}
+	}
+	for topic := range post {
+		if _, ok := pre[topic]; !ok {
+			c.Violate("C20/restored-message-differs", map[string]string{"kind": "retained", "probe": "replaced-with-same-payload"}, fmt.Sprintf("%s: retained message on %q exists only after the restart: %s", backend, topic, post[topic]), nil)
+		}
+	}
+	c.Eval(vk.Hash("c20replace", backend), len(pre) >= 4)
 }
